@@ -26,7 +26,7 @@ KEY_MOU = "ImportMintsVersion:ImportAfterMetadataOnlyRewriteKeepsOldVersion"
 
 def run(ctx):
     quick = ctx.quick()
-    nsim = int(os.environ.get("VERIF_C09_NSIM") or (400 if quick else 5000))
+    nsim = int(os.environ.get("VERIF_C09_NSIM") or (300 if quick else 5000))
     with concurrent.futures.ThreadPoolExecutor(4) as ex:
         skipmc = bool(os.environ.get("VERIF_C09_SKIPMC"))      # development aid (mutation self-tests of the binding)
         f_mc = ex.submit(lambda: None) if skipmc else ex.submit(model_check, ctx, SPEC, "MC_Import", "MC_Import.cfg" if quick else "MC_Import_thorough.cfg", 5400)
@@ -37,7 +37,7 @@ def run(ctx):
     if mc is not None:
         ctx.cov["exhaustive"] = True
         final_coverage(ctx, mc)
-    cap = int(os.environ.get("VERIF_C09_CAP") or (700 if quick else 100000))
+    cap = int(os.environ.get("VERIF_C09_CAP") or (500 if quick else 100000))
     behs, seen = [], set()
     for src, lst in (("seq", pick(ctx, b_seq, cap)), ("race", pick(ctx, b_race, cap)), ("sim", b_sim)):
         for b in lst:
@@ -179,7 +179,7 @@ def strip(r):
 
 def measure(ctx, behs, per):
     st = {"behaviours": len(behs), "imports": 0, "import_by_feed": 0, "import_by_read": 0, "import_by_write": 0, "feed_cancelled_or_ignored": 0,
-          "parked_imports": 0, "reads": 0, "writes_ok": 0, "writes_conflict": 0, "cache_accepted": 0, "cache_ignored": 0, "aborted": 0,
+          "user_xattr_imports": 0, "parked_imports": 0, "reads": 0, "writes_ok": 0, "writes_conflict": 0, "cache_accepted": 0, "cache_ignored": 0, "aborted": 0,
           "restamp_aborts": 0, "strange": 0, "by_source": {}, "race_lost_cas": 0}
     nontriv = 0
     for b, rs in per.items():
@@ -207,6 +207,9 @@ def measure(ctx, behs, per):
             if a in ("Write", "WriteRel") and grew and o["out"]["wres"] != "ok":
                 st["imports"] += 1
                 st["import_by_write"] += 1
+                imported = True
+            if a in IMPORT_ACTS and not grew and prev and prev["meta"]["has"] and o["meta"]["has"] and o["meta"]["ucrc"] != prev["meta"]["ucrc"]:
+                st["user_xattr_imports"] += 1
                 imported = True
             if a in ("Feed", "FeedRel") and not grew:
                 st["feed_cancelled_or_ignored"] += 1
